@@ -310,6 +310,10 @@ def level_limit_of(spec) -> int:
     return -1
 
 
+def _decoy_objective(x):
+    raise RuntimeError("the objective of the problem a level configuration was first built with has been called")
+
+
 def build(spec: dict):
     """-> (TreeConfig, Recorder)."""
     dim = int(spec.get("dim", 2))
@@ -347,7 +351,17 @@ def build(spec: dict):
         rec.shared = True
     for li, lv in enumerate(spec["levels"]):
         lsc = _lsc(lv.get("lsc", {}), rec, li, script)
-        levels.append(_level(lv, problems[li], lsc, bounds, li))
+        if spec.get("retarget_problem"):
+            # the level configuration is first built for another problem (opposite direction, a disjoint box, an objective
+            # that must never be called) and then pointed at the real one - the `cfg = deepcopy(cfg); cfg.problem = p`
+            # idiom of the repository's own tests: nothing may remember the problem the configuration was built with
+            width = bounds[:, 1] - bounds[:, 0]
+            decoy = FunctionProblem(_decoy_objective, bounds=bounds + 3.0 * width[:, None], maximize=not maximize)
+            cfg_l = _level(lv, decoy, lsc, bounds, li)
+            cfg_l.problem = problems[li]
+            levels.append(cfg_l)
+        else:
+            levels.append(_level(lv, problems[li], lsc, bounds, li))
     gsc = _gsc(spec["gsc"], rec, script, problems)
     sm = _sprout(spec["sprout"], rec, bounds, script)
     options = {"log_level": "warning", "hibernation": bool(spec.get("hibernation", False))}
